@@ -296,6 +296,29 @@ Proof.
   - intros [H|H]; [exists Shared|exists Excl]; split; try assumption; discriminate.
 Qed.
 
+(* two accesses by different threads, each made while holding l, one of them exclusively:
+   the earlier one happens-before the later one *)
+Lemma locked_pair_hb e l i j a b m1 m2 :
+  wf e -> i < j -> ev_at e i a -> ev_at e j b -> tid a <> tid b ->
+  access_of (act a) <> None ->
+  holds e (tid a) l m1 i -> holds e (tid b) l m2 j -> (m1 = Excl \/ m2 = Excl) ->
+  hb e i j.
+Proof.
+  intros Hwf Hij Ha Hb Hne Hacc Hh1 Hh2 Hm.
+  destruct (holders_ordered e l (tid a) (tid b) m1 m2 i j Hwf Hne Hm Hh1 Hh2 Hij)
+    as (k & p2 & Hik & Hkp & Hpj & (evk & Hevk & Htk & Hak) & (ev2 & Hev2 & Ht2 & Ha2)).
+  assert (Hik' : i < k).
+  { destruct (Nat.eq_dec i k) as [->|Hn]; [|lia].
+    rewrite (ev_at_fun _ _ _ _ Ha Hevk) in Hacc. rewrite Hak in Hacc. now contradiction Hacc. }
+  apply hb_trans with k.
+  { apply hb_po. eapply po_intro; eauto. }
+  apply hb_trans with p2.
+  { apply hb_sw. split; [exact Hkp|]. exists evk, ev2. repeat split; try assumption.
+    unfold syncs. rewrite Hak, Ha2. split; [reflexivity|].
+    destruct Hm as [->| ->]; auto. }
+  apply hb_po. eapply po_intro; eauto.
+Qed.
+
 Theorem guarded_by : forall e x l, wf e -> guarded e x l -> ~ race_on e x.
 Proof.
   intros e x l Hwf Hg Hrace.
@@ -305,19 +328,7 @@ Proof.
   destruct (holds_at_least_mode _ _ _ _ _ (Hg i a wa aa Ha Haa)) as (m1 & Hh1 & Hm1).
   destruct (holds_at_least_mode _ _ _ _ _ (Hg j b wb ab Hb Hab)) as (m2 & Hh2 & Hm2).
   assert (Hm : m1 = Excl \/ m2 = Excl) by (destruct Hw as [Hw|Hw]; [left|right]; auto).
-  destruct (holders_ordered e l (tid a) (tid b) m1 m2 i j Hwf Hne Hm Hh1 Hh2 Hij)
-    as (k & p2 & Hik & Hkp & Hpj & (evk & Hevk & Htk & Hak) & (ev2 & Hev2 & Ht2 & Ha2)).
-  assert (Hik' : i < k).
-  { destruct (Nat.eq_dec i k) as [->|Hn]; [|lia].
-    rewrite (ev_at_fun _ _ _ _ Ha Hevk) in Haa. rewrite Hak in Haa. discriminate Haa. }
-  apply Hnhb.
-  apply hb_trans with k.
-  { apply hb_po. eapply po_intro; eauto. }
-  apply hb_trans with p2.
-  { apply hb_sw. split; [exact Hkp|]. exists evk, ev2. repeat split; try assumption.
-    unfold syncs. rewrite Hak, Ha2. split; [reflexivity|].
-    destruct Hm as [->| ->]; auto. }
-  apply hb_po. eapply po_intro; eauto.
+  apply Hnhb. eapply locked_pair_hb; eauto. rewrite Haa. discriminate.
 Qed.
 
 (* all accesses to x are atomic *)
@@ -348,30 +359,28 @@ Qed.
    publishing release); every access by another thread is a read that comes after an
    event q of that thread with r happens-before q. *)
 Definition published_hb (e : execution) (x : name) (t : thread) (r : nat) : Prop :=
-  (exists ev, ev_at e r ev /\ tid ev = t) /\
   (forall i ev a, ev_at e i ev -> access_of (act ev) = Some (x, true, a) ->
-     tid ev = t /\ i < r) /\
+     tid ev = t /\ i < r /\ exists evr, ev_at e r evr /\ tid evr = t) /\
   (forall i ev w a, ev_at e i ev -> access_of (act ev) = Some (x, w, a) -> tid ev <> t ->
      w = false /\ exists q evq, q < i /\ ev_at e q evq /\ tid evq = tid ev /\ hb e r q).
 
 (* the same with a DIRECT synchronisation edge: the reader's acquire q synchronises with
    the writer's release r (same lock / atomic location / channel / pool / once) *)
 Definition published (e : execution) (x : name) (t : thread) (r : nat) : Prop :=
-  (exists ev, ev_at e r ev /\ tid ev = t) /\
   (forall i ev a, ev_at e i ev -> access_of (act ev) = Some (x, true, a) ->
-     tid ev = t /\ i < r) /\
+     tid ev = t /\ i < r /\ exists evr, ev_at e r evr /\ tid evr = t) /\
   (forall i ev w a, ev_at e i ev -> access_of (act ev) = Some (x, w, a) -> tid ev <> t ->
      w = false /\ exists q evq, q < i /\ ev_at e q evq /\ tid evq = tid ev /\ sw e r q).
 
 Theorem publish_once_hb : forall e x t r, published_hb e x t r -> ~ race_on e x.
 Proof.
-  intros e x t r ((evr & Hevr & Htr) & Hwr & Hrd) Hrace.
+  intros e x t r (Hwr & Hrd) Hrace.
   apply race_on_ordered in Hrace.
   destruct Hrace as (i & j & Hij & a & b & Ha & Hb & Hne & Hc & Hnhb & _).
   destruct Hc as (wa & aa & wb & ab & Haa & Hab & Hw & _).
   destruct Hw as [-> | ->].
   - (* the earlier event writes: it is the creator's, before r *)
-    destruct (Hwr i a aa Ha Haa) as [Hta Hir].
+    destruct (Hwr i a aa Ha Haa) as (Hta & Hir & evr & Hevr & Htr).
     assert (Htb : tid b <> t) by congruence.
     destruct (Hrd j b wb ab Hb Hab Htb) as (_ & q & evq & Hqj & Hevq & Htq & Hhb).
     apply Hnhb.
@@ -380,7 +389,7 @@ Proof.
     apply hb_trans with q; [exact Hhb|].
     apply hb_po. eapply po_intro; eauto.
   - (* the later event writes (before r); the earlier one is a foreign access after r *)
-    destruct (Hwr j b ab Hb Hab) as [Htb Hjr].
+    destruct (Hwr j b ab Hb Hab) as (Htb & Hjr & _).
     assert (Hta : tid a <> t) by congruence.
     destruct (Hrd i a wa aa Ha Haa Hta) as (_ & q & evq & Hqi & _ & _ & Hhb).
     apply hb_lt in Hhb. lia.
@@ -388,7 +397,7 @@ Qed.
 
 Lemma published_published_hb e x t r : published e x t r -> published_hb e x t r.
 Proof.
-  intros (H1 & H2 & H3). split; [exact H1|]. split; [exact H2|].
+  intros (H2 & H3). split; [exact H2|].
   intros i ev w a Hev Hacc Hne.
   destruct (H3 i ev w a Hev Hacc Hne) as (Hw & q & evq & Hq & Hevq & Htq & Hsw).
   split; [exact Hw|]. exists q, evq. repeat split; try assumption. now apply hb_sw.
@@ -398,6 +407,37 @@ Theorem publish_once : forall e x t r, published e x t r -> ~ race_on e x.
 Proof.
   intros e x t r H. apply publish_once_hb with t r. now apply published_published_hb.
 Qed.
+
+(* initialised by its creator t before the event r of t, afterwards accessed only under lock l
+   (writers exclusively) by accesses that r happens-before: lazily created, then lock-protected
+   state (the combination of the two previous disciplines) *)
+Definition init_then_guarded (e : execution) (x l : name) (t : thread) (r : nat) : Prop :=
+  forall i ev w a, ev_at e i ev -> access_of (act ev) = Some (x, w, a) ->
+    (tid ev = t /\ i < r /\ exists evr, ev_at e r evr /\ tid evr = t) \/
+    (hb e r i /\ holds_at_least e (tid ev) l (if w then Excl else Shared) i).
+
+Theorem init_then_guarded_by : forall e x l t r,
+  wf e -> init_then_guarded e x l t r -> ~ race_on e x.
+Proof.
+  intros e x l t r Hwf Hig Hrace.
+  apply race_on_ordered in Hrace.
+  destruct Hrace as (i & j & Hij & a & b & Ha & Hb & Hne & Hc & Hnhb & _).
+  destruct Hc as (wa & aa & wb & ab & Haa & Hab & Hw & _).
+  destruct (Hig i a wa aa Ha Haa) as [(Hta & Hir & evr & Hevr & Htr)|(Hra & Hla)];
+  destruct (Hig j b wb ab Hb Hab) as [(Htb & Hjr & evr' & Hevr' & Htr')|(Hrb & Hlb)].
+  - congruence.
+  - apply Hnhb. apply hb_trans with r; [|exact Hrb].
+    apply hb_po. eapply po_intro; eauto. congruence.
+  - apply hb_lt in Hra. lia.
+  - destruct (holds_at_least_mode _ _ _ _ _ Hla) as (m1 & Hh1 & Hm1).
+    destruct (holds_at_least_mode _ _ _ _ _ Hlb) as (m2 & Hh2 & Hm2).
+    assert (Hm : m1 = Excl \/ m2 = Excl) by (destruct Hw as [Hw|Hw]; [left|right]; auto).
+    apply Hnhb. eapply locked_pair_hb; eauto. rewrite Haa. discriminate.
+Qed.
+
+Lemma holds_at_least_weaken e t l m i :
+  holds_at_least e t l m i -> holds_at_least e t l Shared i.
+Proof. destruct m; cbn; intros H; [now right|exact H]. Qed.
 
 (* ---------- executable checkers (used for the concrete examples) ---------- *)
 
